@@ -404,8 +404,7 @@ def check_refit(chk, case):
         np.allclose(res['fresh'], res['refit'], rtol=1e-9, atol=1e-12, equal_nan=False)
     chk.d(ok, 'predictions after a second fit equal those of a freshly constructed SuperLearner',
           {'case': case, 'fresh': res['fresh'][:4] if isinstance(res['fresh'], list) else res['fresh'],
-           'refit': res['refit'][:4] if isinstance(res['refit'], list) else res['refit']},
-          signature={'class': 'SuperLearner', 'case': 'second_fit_same_object'})
+           'refit': res['refit'][:4] if isinstance(res['refit'], list) else res['refit']})
 
 
 def make_sl_case(rng, loss, discrete, m, k, real=False, n=None):
@@ -662,7 +661,7 @@ def replay(rec):
         print('replaying', case)
         if case['kind'] == 'sw':
             check_stepwise(chk, drv, case)
-        elif f.get('signature') and f['signature'].get('case') == 'second_fit_same_object':
+        elif 'second fit' in (f.get('what') or ''):
             check_refit(chk, case)
         else:
             check_sl(chk, drv, case)
